@@ -198,6 +198,17 @@ def mark_overlaps(lay):
         r["binfree"] = i in free
 
 
+def dup_field_names(r):
+    names = [f["name"] for f in r["fields"] if not f["hidden"]]
+    return len(set(names)) != len(names)
+
+
+def config_faithful(r):
+    """A whole-register value of this register survives its own configuration (which is written bit-field by bit-field)."""
+    return (not r["fields"]) or (r.get("fields_width", r["width"]) == r["width"] and not dup_field_names(r)
+                                 and all(f.get("enum_names_unique", True) and not f.get("shr_unknown") for f in r["fields"]))
+
+
 def tla_layout(lay):
     """The part of a layout the TLA+ specification reads."""
     if lay.get("hasbin", True):
@@ -214,7 +225,9 @@ def tla_layout(lay):
             "computed": [i for i, r in enumerate(regs, 1) if r["kind"] == "leaf" and r["comp"] != ""], "hascond": any(r["cond"]["c"] != 0 for r in regs),
             "free": [i for i, r in enumerate(regs, 1) if r["kind"] == "leaf" and (r["binfree"] or r["presetdc"])],
             "ovl": [i for i, r in enumerate(regs, 1) if r["kind"] == "leaf" and r["binfree"]], "nbad": len(lay.get("unresolved", [])),
-            "dupenum": [i for i, r in enumerate(lay["regs"], 1) if any(not f.get("enum_names_unique", True) for f in r["fields"])]}
+            "dupenum": [i for i, r in enumerate(lay["regs"], 1) if any(not f.get("enum_names_unique", True) for f in r["fields"])],
+            "dupfield": [i for i, r in enumerate(lay["regs"], 1) if not r["hidden"] and dup_field_names(r)],
+            "uncovered": [i for i, r in enumerate(lay["regs"], 1) if not r["hidden"] and r["fields"] and r.get("fields_width", r["width"]) != r["width"]]}
 
 
 # ------------------------------------------------------------------ adapters
